@@ -110,7 +110,7 @@ static void assign(V &dst, const Scal &p, long long v) {
         case 3: if ((v & 1) && p.u < 4000000000ULL) dst = static_cast<unsigned int>(p.u); else dst = static_cast<SizeT64>(p.u); break;
         case 4: if ((v & 1) && p.i > -2000000000LL && p.i < 2000000000LL) dst = static_cast<int>(p.i); else dst = static_cast<SizeT64I>(p.i); break;
         case 5: {
-            double d = static_cast<double>(p.q) / 4.0;
+            double d = static_cast<double>(p.q) / 256.0;
             if ((v & 1) && static_cast<double>(static_cast<float>(d)) == d) dst = static_cast<float>(d); else dst = d;
             break;
         }
@@ -139,7 +139,7 @@ static void append(V &dst, const Scal &p, long long v) {
         case 2: dst += false; break;
         case 3: if ((v & 1) && p.u < 4000000000ULL) dst += static_cast<unsigned int>(p.u); else dst += static_cast<SizeT64>(p.u); break;
         case 4: if ((v & 1) && p.i > -2000000000LL && p.i < 2000000000LL) dst += static_cast<int>(p.i); else dst += static_cast<SizeT64I>(p.i); break;
-        case 5: dst += (static_cast<double>(p.q) / 4.0); break;
+        case 5: dst += (static_cast<double>(p.q) / 256.0); break;
         case 6: {
             long long w = v % 4;
             if (w == 3 && has_nul(p.s)) w = 2;
@@ -158,9 +158,10 @@ static void units(const Ch *p, size_t n, std::string &o) {
     for (size_t i = 0; i < n; i++) { o += std::to_string(static_cast<unsigned long>(static_cast<UCh>(p[i]))); o += '.'; }
     o += ')';
 }
+// a real as an exact number of 256ths (the model's unit: dyadics with at most 8 fraction bits)
 static std::string quarters(double d) {
     if (!(d > -1e15 && d < 1e15)) return "B";
-    double q = d * 4.0;
+    double q = d * 256.0;
     long long r = static_cast<long long>(q);
     if (static_cast<double>(r) != q) return "!" + std::to_string(r);
     return std::to_string(r);
@@ -513,7 +514,7 @@ static std::string run_case(const std::string &line) {
                 V *tmp;
                 if (n.kind == 3) tmp = new (buf) V{static_cast<SizeT64>(n.u)};
                 else if (n.kind == 4) tmp = new (buf) V{static_cast<SizeT64I>(n.i)};
-                else if (n.kind == 5) tmp = new (buf) V{static_cast<double>(n.q) / 4.0};
+                else if (n.kind == 5) tmp = new (buf) V{static_cast<double>(n.q) / 256.0};
                 else tmp = new (buf) V{static_cast<unsigned int>(n.kind)};
                 append(*tmp, p, 0);
                 *d = Memory::Move(*tmp);
